@@ -236,6 +236,166 @@ fn run_bls(ctx: &mut Ctx) {
     }
 }
 
+/// `Gt` built from arbitrary `Fp12` values through the public, unchecked `From<Fp12> for Gt` (there is
+/// no byte decoder for `Gt`): the operators are compared with the model on elements that are NOT in
+/// the order-r subgroup, and what membership the API assumes is recorded.
+fn run_gt_raw(ctx: &mut Ctx) {
+    use midnight_curves::bls12_381::Fp12;
+    let mut rng = ctx.rng("gt-raw");
+    let r = modulus::<midnight_curves::Fq>();
+    let p = modulus::<midnight_curves::bls12_381::Fp>();
+    let fr = |b: &BigUint| mzkh::fe_from_big::<midnight_curves::Fq>(b);
+    let n = if ctx.quick() { 4 } else { 16 };
+    let mut vals: Vec<(Gt, &'static str)> = vec![(Gt::from(Fp12::ZERO), "zero")];
+    for i in 0..n {
+        let (e, _) = operand(&mut rng, &p, 12, 4 + (i % 2));
+        let f = crate::tower::bls12(&e);
+        vals.push((Gt::from(f), "field-element"));
+        if let Some(inv) = Option::<Fp12>::from(f.invert()) {
+            // easy part of the final exponentiation only: unitary, cyclotomic, not of order r
+            let mut c = f;
+            c.conjugate();
+            let u = c * inv;
+            let mut u2 = u;
+            u2.frobenius_map(2);
+            vals.push((Gt::from(u2 * u), "cyclotomic-not-order-r"));
+        }
+    }
+    let (pp, qq) = bls_point_pair(&mut rng, &r, 7);
+    vals.push((midnight_curves::bls12_381::pairing(&pp, &qq), "member"));
+    let out = |g: &Gt| fmt_el(&bls12_out(&Fp12::from(*g)));
+    for (i, (a, cls)) in vals.iter().enumerate() {
+        let sa = out(a);
+        ctx.case("gt-bls-neg", true, &format!("gt bls neg {sa}"), &out(&(-*a)));
+        ctx.case("gt-bls-dbl", true, &format!("gt bls dbl {sa}"), &out(&a.double()));
+        let rm1 = *a * fr(&(&r - BigUint::one()));
+        let in_subgroup = bool::from((rm1 + *a).is_identity());
+        ctx.case("order-bls", true, &format!("order bls {sa}"), if in_subgroup { "1" } else { "0" });
+        let neg_is_inverse = *a + (-*a) == Gt::identity();
+        ctx.count(&format!("gt-raw:{cls}:in-subgroup={}:neg-is-inverse={}", in_subgroup as u8, neg_is_inverse as u8));
+        match *cls {
+            "member" => {
+                if !in_subgroup || !neg_is_inverse {
+                    ctx.oracle_fail("bls:gt-raw-member", "a pairing value re-wrapped through From<Fp12> lost its group properties", json!({"value": sa}));
+                }
+            }
+            "cyclotomic-not-order-r" => {
+                // conjugation inverts every unitary element, member of the order-r subgroup or not
+                if !neg_is_inverse {
+                    ctx.oracle_fail("bls:gt-neg-unitary", "Gt::neg is not the inverse on a unitary element", json!({"value": sa}));
+                }
+            }
+            _ => {
+                // Observation (not a failure): `From<Fp12> for Gt` accepts any field element; on a non-unitary
+                // one `-g` (conjugation) is not the inverse. The API makes no membership promise for this
+                // constructor; every other way to obtain a `Gt` goes through the final exponentiation.
+                ctx.count("observation:gt-from-fp12-is-unchecked (no byte decoder exists; pairing/final_exponentiation/random outputs are members)");
+            }
+        }
+        for k in [0usize, 1, 2, 9] {
+            let s = scalar_class(&mut rng, &r, k);
+            ctx.case("gtmul-bls", true, &format!("gtmul bls {sa} {}", mzkh::big_hex(&s)), &out(&(*a * fr(&s))));
+        }
+        let (b, _) = &vals[(i * 7 + 3) % vals.len()];
+        let sb = out(b);
+        ctx.case("gt-bls-add", true, &format!("gt bls add {sa} {sb}"), &out(&(*a + *b)));
+        ctx.case("gt-bls-sub", true, &format!("gt bls sub {sa} {sb}"), &out(&(*a - *b)));
+    }
+    // `Gt::random` goes through the final exponentiation: members
+    for _ in 0..(if ctx.quick() { 2 } else { 8 }) {
+        let g = Gt::random(&mut rng);
+        let rm1 = g * fr(&(&r - BigUint::one()));
+        ctx.count("gt-random");
+        if !bool::from((rm1 + g).is_identity()) || g + (-g) != Gt::identity() {
+            ctx.oracle_fail("bls:gt-random-member", "Gt::random returned an element outside the order-r subgroup", json!({"value": out(&g)}));
+        }
+    }
+}
+
+/// The remaining public items of `bls_pairing.rs`: `MillerLoopResult` default / `conditional_select` /
+/// `+=`, `PairingG1G2::merge`, `aggregated` + `finalverify(Some(gtsig))`, `unique_messages`.
+fn run_bls_misc(ctx: &mut Ctx) {
+    use midnight_curves::bls12_381::MillerLoopResult as Mlr;
+    use subtle::{Choice, ConditionallySelectable};
+    let mut rng = ctx.rng("bls-misc");
+    let r = modulus::<midnight_curves::Fq>();
+    let fr = |b: &BigUint| mzkh::fe_from_big::<midnight_curves::Fq>(b);
+    // MillerLoopResult
+    if Mlr::default().final_exponentiation() != Gt::identity() {
+        ctx.oracle_fail("bls:mlr-default", "MillerLoopResult::default() does not reduce to the identity", json!({}));
+    }
+    let (p1, q1) = bls_point_pair(&mut rng, &r, 7);
+    let (p2, q2) = bls_point_pair(&mut rng, &r, 7);
+    let prep1 = midnight_curves::G2Prepared::from(q1);
+    let prep2 = midnight_curves::G2Prepared::from(q2);
+    let a = Bls12::multi_miller_loop(&[(&p1, &prep1)]);
+    let b = Bls12::multi_miller_loop(&[(&p2, &prep2)]);
+    let both = Bls12::multi_miller_loop(&[(&p1, &prep1), (&p2, &prep2)]);
+    let mut c = Mlr::default();
+    c += a;
+    c += &b;
+    ctx.count("bls-misc:miller-loop-result");
+    if Mlr::conditional_select(&a, &b, Choice::from(0)) != a
+        || Mlr::conditional_select(&a, &b, Choice::from(1)) != b
+        || c.final_exponentiation() != both.final_exponentiation()
+        || (Mlr::default() + a).final_exponentiation() != a.final_exponentiation()
+    {
+        ctx.oracle_fail("bls:mlr-ops", "MillerLoopResult conditional_select / += / default + x disagree with the product of pairings", json!({}));
+    }
+    // merge of two aggregate contexts; aggregated signature in Gt
+    let dst: &[u8] = b"MIDNIGHT-VERIF-C13-BLS12381G2_XMD:SHA-256_SSWU_RO_";
+    for i in 0..(if ctx.quick() { 3 } else { 10 }) {
+        let sk1 = scalar_class(&mut rng, &r, 9);
+        let sk2 = scalar_class(&mut rng, &r, 9);
+        let m1: Vec<u8> = (0..(5 + i)).map(|_| rng.gen::<u8>()).collect();
+        let m2: Vec<u8> = (0..(9 + 2 * i)).map(|_| rng.gen::<u8>()).collect();
+        let g1 = G1Projective::generator();
+        let (pk1, pk2) = ((g1 * fr(&sk1)).to_affine(), (g1 * fr(&sk2)).to_affine());
+        let h1 = G2Projective::hash_to_curve(&m1, dst, &[]);
+        let h2 = G2Projective::hash_to_curve(&m2, dst, &[]);
+        let sig = (h1 * fr(&sk1) + h2 * fr(&sk2)).to_affine();
+        let bad = (h1 * fr(&sk1) + h2 * fr(&sk1)).to_affine();
+        let run = |s: &G2Affine, via_gt: bool| -> Result<bool, String> {
+            let mut c1 = midnight_curves::PairingG1G2::new(true, dst);
+            let mut c2 = midnight_curves::PairingG1G2::new(true, dst);
+            if via_gt {
+                c1.aggregate(&pk1, None, &m1, &[]).map_err(|e| format!("{e:?}"))?;
+            } else {
+                c1.aggregate(&pk1, Some(s), &m1, &[]).map_err(|e| format!("{e:?}"))?;
+            }
+            c2.aggregate(&pk2, None, &m2, &[]).map_err(|e| format!("{e:?}"))?;
+            c1.commit();
+            c2.commit();
+            c1.merge(&c2).map_err(|e| format!("{e:?}"))?;
+            if via_gt {
+                let mut gtsig = Gt::identity();
+                midnight_curves::PairingG1G2::aggregated(&mut gtsig, s);
+                Ok(c1.finalverify(Some(&gtsig)))
+            } else {
+                Ok(c1.finalverify(None))
+            }
+        };
+        ctx.count("bls-misc:merge-aggregated");
+        let got = (run(&sig, false), run(&bad, false), run(&sig, true), run(&bad, true));
+        if got != (Ok(true), Ok(false), Ok(true), Ok(false)) {
+            ctx.oracle_fail("bls:merge-aggregated", "PairingG1G2 merge / aggregated / finalverify(gtsig) disagree with e(pk1,H(m1))·e(pk2,H(m2)) = e(G1,sig)",
+                json!({"got (good, bad, good-via-gt, bad-via-gt)": format!("{got:?}")}));
+        }
+    }
+    // unique_messages against a set
+    for i in 0..(if ctx.quick() { 12 } else { 60 }) {
+        let n = 1 + i % 6;
+        let msgs: Vec<Vec<u8>> = (0..n).map(|_| { let l = rng.gen_range(0..3); (0..l).map(|_| rng.gen_range(0u8..2)).collect() }).collect();
+        let refs: Vec<&[u8]> = msgs.iter().map(|m| m.as_slice()).collect();
+        let expect = { let mut s = std::collections::BTreeSet::new(); msgs.iter().all(|m| s.insert(m.clone())) };
+        let got = midnight_curves::unique_messages(&refs);
+        ctx.count(&format!("bls-misc:unique-messages:{}", if expect { "unique" } else { "duplicate" }));
+        if got != expect {
+            ctx.oracle_fail("bls:unique-messages", "unique_messages disagrees with set semantics", json!({"msgs": format!("{msgs:?}"), "got": got}));
+        }
+    }
+}
+
 /// `DualMSM::check` with verifier parameters `([σ]₂, −[γ]₂)` and left/right MSMs whose bases are
 /// known multiples of the G1 generator: accepted iff `σ·L = γ·R` in the exponent.
 fn run_dual(ctx: &mut Ctx) {
@@ -314,7 +474,7 @@ fn run_dual(ctx: &mut Ctx) {
 }
 
 pub fn run(ctx: &mut Ctx) {
-    for (name, f) in [("bn", run_bn as fn(&mut Ctx)), ("bls", run_bls), ("dual", run_dual)] {
+    for (name, f) in [("bn", run_bn as fn(&mut Ctx)), ("bls", run_bls), ("gt-raw", run_gt_raw), ("bls-misc", run_bls_misc), ("dual", run_dual)] {
         let res = mzkh::catch(std::panic::AssertUnwindSafe(|| f(&mut *ctx)));
         if let Err(msg) = res {
             ctx.oracle_fail(&format!("{name}:panic:direct"), "a Miller loop / final exponentiation / pairing check panicked on valid points",
